@@ -18,6 +18,8 @@ Violations(line) ==
   \cup R("files-intact", ~o.intact)
      \* the installed plugin can be listed, fetched (answering with its metadata) by its name
   \cup R("list-get", e.present /\ ~o.listedAndGettable)
+     \* ... and a plugin that is not installed is neither listed nor handed out
+  \cup R("absent-plugin-still-answers", o.ghost)
      \* a bystander plugin is never affected
   \cup R("bystander", ~o.bystanderSame)
      \* reported metadata of the existing and the new plugin on success
